@@ -200,6 +200,9 @@ theorem matchAll_segments (t : matchAllTree) (path seg : Bytes) (next : Nat) (ps
   matchAll_refines E hok t path seg next ps h _
     (matchAllLoopIdx_refines E hok t.baseTree.subtrees t.baseTree.leaves t.bind t.capture 1 path seg next s' rest' ps hc hsp)
 
+/-- `getBinds`: the one name a match-all subtree binds (what `newTree` / `newLeaf` below it check for a duplicate) -/
+theorem getBinds_refines (t : matchAllTree) : getBinds t = ((Pat.all t.bind t.capture).binds, t) := rfl
+
 /-! ### the hypotheses are met -/
 
 /-- "a/b/c" with the cursor behind the first "/": the premises of `matchAll_segments` hold -/
